@@ -127,6 +127,8 @@ def synth_case(rnd, nfields=None, sizes=None, mixed_index_width=True):
     Returns (rule, list of value bit strings)."""
     nfields = rnd.randint(1, 6) if nfields is None else nfields
     fds, vals = [], []
+    from core import mkj
+    mk = lambda bits, side_=L: mkj(rnd, bits, side_)  # noqa: E731 -- target values built the way callers build them (surplus content)
     for i in range(nfields):
         fid = 'X:f%d' % i
         n = rnd.choice(sizes or SIZES)
